@@ -112,7 +112,9 @@ impl Space for ZoneSweep {
         let since = self.tier.pick(days_from_civil(1900, 1, 1) as i128 * NS_PER_DAY, i128::MIN);
         // instants to probe (seconds)
         let mut probes: Vec<(i64, &'static str)> = vec![];
-        let tr: Vec<i128> = rz.zone.trans.iter().map(|x| x.0).filter(|t| *t >= since).collect();
+        // (the quick tier keeps the first three transitions of every zone whatever their date: the changes away
+        // from local mean time have the largest and oddest offsets, +15:02:19 in Alaska before 1867)
+        let tr: Vec<i128> = rz.zone.trans.iter().enumerate().filter(|(k, x)| x.0 >= since || *k < 3).map(|(_, x)| x.0).collect();
         for (k, t) in tr.iter().enumerate() {
             let ts = (*t / NS) as i64;
             let y = civil_from_days(ts.div_euclid(86_400)).0;
@@ -185,7 +187,7 @@ impl Space for ZoneSweep {
         // wall-clock -> set of instants around every probed transition
         let mut n_loc = 0u64;
         for (k, (t, off_after)) in rz.zone.trans.iter().enumerate() {
-            if *t < since {
+            if *t < since && k >= 3 {
                 continue;
             }
             let ts = (*t / NS) as i64;
@@ -259,7 +261,7 @@ impl Space for ZoneSweep {
         }
     }
     fn describe(&self) -> serde_json::Value {
-        json!({"zones": self.names.len(), "per_zone": "every listed transition (quick: since 1900) +-1 s, interval midpoints, before the first transition, footer-rule transitions of 2037-2045, 2099-2101, 2399-2401, 9997-9999; 5 wall-clock probes around every transition"})
+        json!({"zones": self.names.len(), "per_zone": "every listed transition (quick: since 1900 and the first three of every zone) +-1 s, interval midpoints, before the first transition, footer-rule transitions of 2037-2045, 2099-2101, 2399-2401, 9997-9999; 5 wall-clock probes around every transition"})
     }
 }
 
